@@ -48,11 +48,13 @@ def gen_link_spec(rng: random.Random, i: int, name, max_seg=4, empty_vsl=True) -
     return spec
 
 
-def gen_origin_spec(rng: random.Random, name, kinds=None) -> dict:
+def gen_origin_spec(rng: random.Random, name, kinds=None, zero_cap=False) -> dict:
     cls, typ = rng.choice(kinds or ORIGIN_KINDS)
     spec = {"cls": cls, "name": name}
     if cls in RAMP_CLASSES:
         spec["C"] = round(rng.uniform(1500.0, 2500.0), 1)
+        if zero_cap and rng.random() < 0.15:
+            spec["C"] = rng.choice([0, 0.0])  # a closed ramp: capacity zero is a legal parameter value
         spec["type"] = typ
     return spec
 
@@ -97,7 +99,7 @@ def gen_universe_spec(
         "links": [
             gen_link_spec(rng, i, x) for i, x in enumerate(gen_names(rng, "L", nl, nm["l"]))
         ],
-        "origins": [gen_origin_spec(rng, x) for x in gen_names(rng, "O", no, nm["o"])],
+        "origins": [gen_origin_spec(rng, x, zero_cap=True) for x in gen_names(rng, "O", no, nm["o"])],
         "dests": [gen_dest_spec(rng, x) for x in gen_names(rng, "D", nd, nm["d"])],
         "junk": list(JUNK),
     }
